@@ -228,13 +228,9 @@ func buildOverlayRAC(root, pkgDir string) (map[string][]byte, error) {
 	for _, file := range pf.files {
 		path, src, f := file.path, file.src, file.ast
 		var ins []insertion
-		for _, d := range f.Decls {
-			fd, ok := d.(*ast.FuncDecl)
-			if !ok || fd.Body == nil {
-				continue
-			}
-			c := byKey[funcKey(fd)]
-			if c == nil || c.Flags["norac"] != "" {
+		for _, it := range contractTargets(f, byKey) {
+			fd, c := it.fd, it.c
+			if c.Flags["norac"] != "" {
 				continue
 			}
 			off := func(p token.Pos) int { return fset.Position(p).Offset }
@@ -334,7 +330,7 @@ func buildOverlayRAC(root, pkgDir string) (map[string][]byte, error) {
 				var lb strings.Builder
 				for _, r := range lc.Invariants {
 					txt, hoists := hoistOld(r.Text, &counter)
-					if len(hoists) > 0 || strings.Contains(txt, "entry(") || strings.Contains(txt, "rangeindex(") || strings.Contains(txt, "ghost(") || strings.Contains(txt, "visited(") {
+					if len(hoists) > 0 || !racExecutable(txt) {
 						continue // invariants over old()/entry() are not checked at run time
 					}
 					fmt.Fprintf(&lb, " if __racPre && !__guard(func() bool { return %s }) { __rac_fail(%q) };", specToGo(txt, resultName), fmt.Sprintf("%s#inv:loop%d.%s", full, n, r.Label))
